@@ -61,7 +61,7 @@ def checkRoot (s : St) (ln : Nat) (e fname : String) (ctok : String) : St := Id.
   let some (c, ev) := parseChild ctok | return s.diff ln "parse" s!"bad-child {ctok}"
   let some (_, t) := s.table? e | return s.diff ln "root" s!"no-table-for {e}"
   let recs := (s.nodes.filter (·.1 == fname)).map (·.2)
-  let mut s := s
+  let mut s := { s with edgeRoots := (e, fname, c) :: s.edgeRoots.filter (·.1 != e) }
   if f.lab == "mt" then
     let D : Dump Val := recs.map (fun n => { handle := n.handle, pos := n.pos, down := n.down })
     let mt := evalRoot s f D c
@@ -82,6 +82,45 @@ def checkRoot (s : St) (ln : Nat) (e fname : String) (ctok : String) : St := Id.
       s := s.diff ln "eval-vs-structure" s!"edge={e} index={i} expected(model-eval-of-dump)={mt.getD i default} got(evaluate)={t.getD i default}"
   return s
 
+/-- the unfolded tree of an edge (from the last dump of its forest) -/
+def treeOf (s : St) (e : String) : Option (ForestInfo × DD Val) := do
+  let (_, fname, c) ← s.edgeRoots.find? (·.1 == e)
+  let f ← s.forest? fname
+  let recs := (s.nodes.filter (·.1 == fname)).map (·.2)
+  let D : Dump Val := recs.map (fun n => { handle := n.handle, pos := n.pos, down := n.down })
+  let S := shapeOf s f
+  pure (f, Dump.unfold D (zeroOf f) S.top c)
+
+/-- `modelop R OP A [B]`: run the MODEL's algorithm (`DD.apply2` / `DD.apply1`) on the unfolded operand
+    trees and compare with the unfolded result tree of the implementation.  By `apply2_unique` both are
+    the unique reduced tree of the pointwise function, so they must be identical. -/
+def modelOp (s : St) (ln : Nat) (res op : String) (args : List String) : St := Id.run do
+  let bf : Option (Bool → Bool → Bool) := match op with
+    | "UNION" => some (· || ·) | "INTERSECTION" => some (· && ·) | "DIFFERENCE" => some (fun x y => x && !y)
+    | _ => none
+  let vb (f : Bool → Bool → Bool) : Val → Val → Val := fun x y => .b (f x.isTrue y.isTrue)
+  match treeOf s res with
+  | none => return s.diff ln "modelop" s!"no-root-for {res}"
+  | some (fc, tr) =>
+    if fc.lab != "mt" then return s
+    let Sc := shapeOf s fc
+    match op, args with
+    | "COMPLEMENT", [a] =>
+      match treeOf s a with
+      | some (fa, ta) =>
+        let m := DD.apply1 (shapeOf s fa) Sc (zeroOf fa) (zeroOf fc) (fun x => Val.b (!x.isTrue)) Sc.top none ta
+        let s := (s.tick).bump "modelop.apply1"
+        if m == tr then return s else return s.diff ln "model-structure" s!"op={op} expected(model apply1)≠got(dump)"
+      | none => return s.diff ln "modelop" s!"no-root-for {a}"
+    | _, [a, b] =>
+      match bf, treeOf s a, treeOf s b with
+      | some f, some (fa, ta), some (fb, tb) =>
+        let m := DD.apply2 (shapeOf s fa) (shapeOf s fb) Sc (zeroOf fa) (zeroOf fb) (zeroOf fc) (vb f) Sc.top none ta tb
+        let s := (s.tick).bump "modelop.apply2"
+        if m == tr then return s else return s.diff ln "model-structure" s!"op={op} expected(model apply2)≠got(dump)"
+      | _, _, _ => return s.diff ln "modelop" s!"cannot-run {op}"
+    | _, _ => return s.diff ln "modelop" s!"bad-arity {op}"
+
 def stepLine (s : St) (ln : Nat) (line : String) : St := Id.run do
   let toks := (line.splitOn " ").filter (· != "")
   match toks with
@@ -97,7 +136,7 @@ def stepLine (s : St) (ln : Nat) (line : String) : St := Id.run do
   | "crash" :: rest => return s.diff ln "crash" (" ".intercalate rest)
   | "case" :: n :: _ =>
     return { s with caseNo := n.toNat?.getD 0, dom := #[], forests := [], tables := [], firstSeen := [],
-                    inputs := [], pending := [], nodes := [], roots := [], scalars := [],
+                    inputs := [], pending := [], nodes := [], roots := [], scalars := [], edgeRoots := [],
                     rep := s.rep.bump "cases" }
   | "endcase" :: _ =>
     let mut s := s
@@ -210,6 +249,7 @@ def stepLine (s : St) (ln : Nat) (line : String) : St := Id.run do
     if a == b then return s
     else return s.diff ln "node-count" s!"forest={fname} expected(live nodes)={a} got(reported)={b}"
   | "audit" :: fname :: _ => return audit s ln fname
+  | "modelop" :: res :: op :: args => return modelOp s ln res op args
   | "root" :: e :: fname :: ctok :: _ => return checkRoot s ln e fname ctok
   | "expect" :: what :: a :: b :: _ =>
     -- generic scalar observation: expect <what> <expected> <got>
